@@ -1282,6 +1282,11 @@ def render_case(r, ctx, pats, v, bare=None):
             bare = coin(0.5)
             arms.append("case %s -> %s" % (rbare(q) if bare else rp(q), res_expr(names_of(q), guarded, head=i)))
         text = "switch (%s) %s" % (vs, " ".join(arms))
+        if r.random() < 0.3:
+            # the same switch inside a frozen function: the freeze pass rewrites the arms' patterns and bodies
+            # (it resolves names and analyses arm reachability) and must not change which arm runs
+            text = "(freeze \\sv__ -> switch (sv__) %s)(%s)" % (" ".join(arms), vs)
+            case["form"] = "switch-frozen"
     elif ctx == "catch":
         bare = coin(0.5)
         text = "try (throw %s) catch %s -> %s" % (vs, rbare(p) if bare else rp(p), res_expr(names, guarded))
